@@ -273,6 +273,40 @@ RelinRes(a) ==
   ELSE ROk([a EXCEPT !.size = 2, !.nb = KsNoise(a)])
 
 (***************************************************************************)
+(* k-ary sum and product.  add_many(h_1..h_k) = ((h_1 + h_2) + ...) + h_k; *)
+(* multiply_many is the product of all operands with a relinearization     *)
+(* after every binary product (so every intermediate has size 2); the      *)
+(* order of the binary products is the library's business, the meaning is  *)
+(* not.  Noise is charged for a chain of k-1 products, which bounds any    *)
+(* tree.                                                                   *)
+(***************************************************************************)
+RECURSIVE FoldAdd(_, _, _)
+FoldAdd(acc, hs, i) ==      \* acc is a result record [v, h]
+  IF i > Len(hs) \/ acc.v # "ok" THEN acc
+  ELSE FoldAdd(AddSubRes(acc.h, hs[i], FALSE), hs, i + 1)
+AddManyRes(hs) ==
+  IF Len(hs) = 0 THEN RAny("no operands")
+  ELSE IF \E i \in 1..Len(hs) : ~IsCt(hs[i]) THEN RAny("not a ciphertext")
+  ELSE IF Len(hs) = 1 /\ BadCt(hs[1]) THEN RAny("a single operand is only copied, nothing is computed on it")
+  ELSE IF BadCt(hs[1]) THEN RRefuse("invalid or seeded ciphertext")
+  ELSE FoldAdd(ROk(hs[1]), hs, 2)
+
+RECURSIVE FoldMul(_, _, _)
+FoldMul(acc, hs, i) ==
+  IF i > Len(hs) \/ acc.v # "ok" THEN acc
+  ELSE LET m == MultiplyRes(acc.h, hs[i])
+       IN FoldMul(IF m.v = "ok" THEN RelinRes(m.h) ELSE m, hs, i + 1)
+MultiplyManyRes(hs) ==
+  IF Len(hs) = 0 THEN RAny("no operands")
+  ELSE IF \E i \in 1..Len(hs) : ~IsCt(hs[i]) THEN RAny("not a ciphertext")
+  ELSE IF IsCkks THEN RAny("multiply_many outside BFV/BGV")
+  ELSE IF Len(hs) = 1 /\ BadCt(hs[1]) THEN RAny("a single operand is only copied, nothing is computed on it")
+  ELSE IF \E i \in 1..Len(hs) : BadCt(hs[i]) THEN RRefuse("invalid or seeded ciphertext")
+  ELSE IF Len(hs) = 1 THEN ROk(hs[1])
+  ELSE IF \E i \in 1..Len(hs) : hs[i].size # 2 \/ hs[i].key # 1 THEN RAny("operands that need more than the one relinearization key")
+  ELSE FoldMul(ROk(hs[1]), hs, 2)
+
+(***************************************************************************)
 (* Plaintext-operand operations                                            *)
 (***************************************************************************)
 PlainCompat(a, p) ==   \* representation pairs the statement's operations accept
@@ -461,7 +495,7 @@ CorruptRes(a, f) ==
 VARIABLE hist
 allvars == <<pool, nsteps, hist>>
 
-NoAct == [op |-> "", a |-> "", b |-> "", p |-> "", lvl |-> 0, mode |-> "", m |-> 0, e |-> 0, g |-> 0, s |-> 0, f |-> ""]
+NoAct == [op |-> "", a |-> "", b |-> "", p |-> "", lvl |-> 0, mode |-> "", m |-> 0, e |-> 0, g |-> 0, s |-> 0, f |-> "", ops |-> <<>>]
 
 \* JSON-friendly projection of a handle: exactly the fields the harness projects from the real object
 ValSeq(h) == IF h.kind = "none" \/ h.pt = <<>> THEN <<>>
@@ -483,6 +517,7 @@ Init == /\ pool = [s \in CtSlots \cup PtSlots |-> Empty]
 Norm(h) == IF IsCkks /\ h.kind # "none" /\ h.pt # <<>> THEN [h EXCEPT !.mb = VMag(h.pt)] ELSE h
 AliasOf(act) ==
   IF act.op \in {"add", "sub", "multiply"} THEN act.a = act.b \/ (pool[act.a].alias /\ pool[act.b].alias)
+  ELSE IF act.op \in {"add_many", "multiply_many"} THEN \A i \in 1..Len(act.ops) : pool[act.ops[i]].alias
   ELSE IF act.a # "" /\ act.op # "decrypt" THEN pool[act.a].alias
   ELSE FALSE
 Apply(act, res0, d) ==
@@ -513,6 +548,13 @@ Multiply == \E a \in CtSlots, b \in CtSlots, d \in CtSlots :
               Apply([NoAct EXCEPT !.op = "multiply", !.a = a, !.b = b], MultiplyRes(pool[a], pool[b]), d)
 Square   == \E a \in CtSlots, d \in CtSlots :
               Apply([NoAct EXCEPT !.op = "square", !.a = a], MultiplyRes(pool[a], pool[a]), d)
+\* operand lists of length 1..MaxArity over the ciphertext slots (repetitions allowed)
+MaxArity == 4
+OpLists == UNION {[1..k -> CtSlots] : k \in 1..MaxArity}
+AddMany  == \E ops \in OpLists, d \in CtSlots :
+              Apply([NoAct EXCEPT !.op = "add_many", !.ops = ops], AddManyRes([i \in 1..Len(ops) |-> pool[ops[i]]]), d)
+MultiplyMany == \E ops \in OpLists, d \in CtSlots :
+              Apply([NoAct EXCEPT !.op = "multiply_many", !.ops = ops], MultiplyManyRes([i \in 1..Len(ops) |-> pool[ops[i]]]), d)
 Relin    == \E a \in CtSlots, d \in CtSlots : Apply([NoAct EXCEPT !.op = "relinearize", !.a = a], RelinRes(pool[a]), d)
 AddPlain == \E a \in CtSlots, p \in PtSlots, d \in CtSlots :
               Apply([NoAct EXCEPT !.op = "add_plain", !.a = a, !.p = p], AddSubPlainRes(pool[a], pool[p], FALSE), d)
@@ -549,7 +591,7 @@ Next == \/ Encode \/ Encrypt \/ EncryptZero \/ Expand \/ Decrypt
         \/ ToNtt \/ FromNtt \/ PlainToNtt
         \/ ModSwitchNext \/ ModSwitchTo \/ RescaleNext \/ RescaleTo
         \/ ModSwitchPlainNext \/ ModSwitchPlainTo
-        \/ Galois \/ Rotate \/ Conj \/ Corrupt \/ EncryptOther \/ KeySwitch
+        \/ Galois \/ Rotate \/ Conj \/ Corrupt \/ EncryptOther \/ KeySwitch \/ AddMany \/ MultiplyMany
 
 Spec == Init /\ [][Next]_allvars
 
